@@ -160,6 +160,12 @@ pub fn eval_case(ops: &[Op], drv: Option<&mut Drv>, pools: &[Pool], rng: &mut Rn
     let lay = match identify(&mut disp, &shared, &built) {
         Ok(l) => l,
         Err(e) => {
+            if Op::depth(ops) > 0 {
+                out.impl_v.push(("C07".into(), format!("{} (a dispatcher with batches)", e)));
+            }
+            if Op::has_tl_in_batch(ops, false) || ops.iter().any(|o| matches!(o, Op::Tl { .. })) {
+                out.impl_v.push(("C12".into(), format!("{} (a dispatcher with thread-local systems)", e)));
+            }
             out.impl_v.push(("C04".into(), e));
             return out;
         }
@@ -211,7 +217,13 @@ pub fn eval_case(ops: &[Op], drv: Option<&mut Drv>, pools: &[Pool], rng: &mut Rn
         rng.shuffle(&mut cands);
         for t in cands.into_iter().take(6) {
             let mode = if rng.chance(75) { "par" } else { "seq" };
-            let how = if built.infos[&t].is_batch || rng.chance(70) { 1 } else { 2 };
+            let how = if built.infos[&t].is_batch || rng.chance(50) {
+                1
+            } else if rng.chance(50) {
+                2
+            } else {
+                3
+            };
             plan_rounds.push((mode.to_string(), Some(t), how));
             plan_rounds.push((mode.to_string(), None, 0));
         }
@@ -338,7 +350,7 @@ pub fn eval_case(ops: &[Op], drv: Option<&mut Drv>, pools: &[Pool], rng: &mut Rn
             (Err(p), false) => {
                 let m = panic_message(p);
                 let rd = shared.round.load(SeqCst);
-                let ok = panicking.iter().any(|t| m == format!("harness panic (run) {} #{}", t, rd) || m == format!("harness panic (fetch) {} #{}", t, rd));
+                let ok = panicking.iter().any(|t| m == format!("harness panic (run) {} #{}", t, rd) || m == format!("harness panic (fetch) {} #{}", t, rd) || m == format!("harness panic (typed) {} #{}", t, rd));
                 if !ok {
                     out.impl_v.push(("C14".into(), format!("the panic that reached the caller carries {:?}, not the payload of a panicking system ({:?})", m, panicking)));
                 }
@@ -371,6 +383,9 @@ pub fn eval_case(ops: &[Op], drv: Option<&mut Drv>, pools: &[Pool], rng: &mut Rn
                     out.impl_v.push(("C04".into(), format!("mode {}: system {} ran {} times, expected {}", mode, t, got, w)));
                     if cfg.panics {
                         out.impl_v.push(("C14".into(), format!("mode {}: in the dispatch after a caught panic system {} ran {} times, expected {}", mode, t, got, w)));
+                    }
+                    if res.is_ok() && built.infos.get(t).map(|i| i.parent.is_some()).unwrap_or(false) {
+                        out.impl_v.push(("C07".into(), format!("mode {}: system {} inside a batch ran {} times in one dispatch, expected {} (once per inner dispatch)", mode, t, got, w)));
                     }
                     if res.is_ok() && built.infos.get(t).map(|i| i.is_tl).unwrap_or(false) {
                         out.impl_v.push(("C12".into(), format!("mode {}: thread-local system {} ran {} times in one dispatch, expected {}", mode, t, got, w)));
